@@ -23,6 +23,7 @@ import (
 	"time"
 
 	"github.com/cbeuw/Cloak/internal/common"
+	mux "github.com/cbeuw/Cloak/internal/multiplex"
 	"golang.org/x/crypto/curve25519"
 )
 
@@ -312,6 +313,67 @@ func vfC06Multi(id string, f []string) string {
 	return out
 }
 
+// The admin session (UID = AdminUID, session id 0): the server keeps its session object to itself (it is not in the user
+// panel), so agreement on the key is shown functionally: the client builds its multiplexer session from the key the
+// handshake returned, opens a stream and sends one HTTP request to the user-management API the server serves on that
+// session; an HTTP status line coming back means both ends hold the same key (frame headers are sealed with it under
+// every encryption method).
+//   <id> AS <direct|cdn> <chrome|firefox|safari> <encName> <seed>  ->  <id> tr=.. ok=<handshake> api=<first bytes of the answer hex | - >
+func vfC06Admin(id string, f []string) string {
+	seed := f[3]
+	now := time.Unix(1700000000, 0)
+	uid := []byte("the-admin-uid-00")
+	keys := vfC06MakeKeys(seed)
+	srv := vfC06NewServer(keys, []byte("some-bypass-uid0"), "shadowsocks", now, seed, vfC06NewPanel())
+	srv.sta.AdminUID = uid
+	cfg := vfC06Cfg{transport: f[0], browser: f[1], encName: f[2], sid: 0, serverName: "www.example.com",
+		uid: uid, method: "shadowsocks", clientNow: now, seed: seed}
+	cl, err := vfC06NewClient(keys, cfg)
+	if err != nil {
+		return fmt.Sprintf("%s cfgerr=%q", id, err.Error())
+	}
+	cdn := f[0] == "cdn"
+	link := vfC06Connect(srv, cdn)
+	defer link.clientEnd.Close()
+	type hres struct {
+		key [32]byte
+		err error
+	}
+	hc := make(chan hres, 1)
+	go func() {
+		k, e := cl.tr.Handshake(link.clientEnd, cl.auth)
+		hc <- hres{k, e}
+	}()
+	var h hres
+	select {
+	case h = <-hc:
+	case <-time.After(60 * time.Second):
+		return fmt.Sprintf("%s tr=%s ok=0 api=- note=handshake-timeout", id, f[0])
+	}
+	if h.err != nil {
+		return fmt.Sprintf("%s tr=%s ok=0 api=- cerr=%q", id, f[0], h.err.Error())
+	}
+	obf, err := mux.MakeObfuscator(cl.auth.EncryptionMethod, h.key)
+	if err != nil {
+		return fmt.Sprintf("%s cfgerr=%q", id, err.Error())
+	}
+	sesh := mux.MakeSession(0, mux.SessionConfig{Obfuscator: obf, Unordered: cl.auth.Unordered, MsgOnWireSizeLimit: appDataMaxLength})
+	sesh.AddConnection(cl.tr)
+	defer sesh.Close()
+	api := "-"
+	st, err := sesh.OpenStream()
+	if err == nil {
+		st.Write([]byte("GET /admin/users HTTP/1.1\r\nHost: cloak\r\n\r\n"))
+		buf := make([]byte, 64)
+		st.SetReadDeadline(time.Now().Add(8 * time.Second))
+		n, _ := st.Read(buf)
+		if n > 0 {
+			api = vfC06Hex(buf[:n])
+		}
+	}
+	return fmt.Sprintf("%s tr=%s ok=1 ckey=%s api=%s", id, f[0], vfC06Hex(h.key[:]), api)
+}
+
 func vfC06Decrypt(id string, f []string) string {
 	pt := vfC06Unhex(f[0])
 	sec, _ := strconv.ParseInt(f[1], 10, 64)
@@ -362,6 +424,10 @@ func TestVerifC06(t *testing.T) {
 			case "D":
 				if len(f) == 5 {
 					line = vfC06Decrypt(f[0], f[2:])
+				}
+			case "AS":
+				if len(f) == 6 {
+					line = vfC06Admin(f[0], f[2:])
 				}
 			case "MS":
 				if len(f) == 8 {
